@@ -132,6 +132,13 @@ def getattr_(ev: Ev, base, attr, node):
     if isinstance(base, VClass):
         if ":" in base.name:
             rel, cn = base.name.split(":")
+            rc = source.resolve_class(rel, cn)
+            if rc is not None and any((isinstance(b, ast.Attribute) and b.attr == "Enum") or
+                                      (isinstance(b, ast.Name) and b.id == "Enum") for b in rc[1].bases):
+                # enum members are modelled as their declaration ordinal (only ever compared with each other)
+                members = [t.id for d in rc[1].body if isinstance(d, ast.Assign) for t in d.targets if isinstance(t, ast.Name)]
+                if attr in members:
+                    return VInt(members.index(attr) + 1)
             r = source.find_method(rel, cn, attr)
             if r is not None:
                 return VFunc("method", (r[0], r[1], None, base), attr)
